@@ -280,6 +280,29 @@ def vec_codecs(ctx, fb, cfg):
                 why = "loop body appends %s" % sh(nv, 200)
         else:
             why = "prefix is %s" % sh(rv, 200)
+    if not good and len(oks) == 1 and not backs and not only_ok_conds(oks[0][0]):
+        # the same writer spelled with iterator adaptors: `input.iter().map(fr_to_bytes_le).for_each(|b| bytes.extend_from_slice(&b))`
+        # (or the codec applied inside the closure) on a buffer that holds the 8-byte count
+        rv = oks[0][1][4][0]
+        p0 = oks[0][0]
+        if rv[0] == "upd" and str(rv[1]).endswith("Iterator::for_each") and len(rv[3]) == 2:
+            seq, cl = rv[3]
+            pre = [e for e in p0.trace if e[0] in ("append", "push")]
+            mapped = seq[0] == "call" and seq[1].endswith("Iterator::map") and seq[2][0] == P(1) and seq[2][1] == ("fn", "rln::utils::fr_to_bytes_le")
+            cit = fb.items.get(cl[1]) if (isinstance(cl, tuple) and cl and cl[0] == "closure") else None
+            body_ok = False
+            if cit is not None:
+                cps = [q for q in Engine(fb, inline=lambda i: False).run(cit) if q.kind != "unreachable"]
+                if len(cps) == 1 and cps[0].kind == "return" and not cps[0].conds():
+                    ext = cps[0].calls(r"Vec::<T, A>::extend_from_slice$|Extend<.*>::extend$")
+                    others = [c for c in cps[0].calls() if c not in ext and not re.search(r"fr_to_bytes_le$|deref$|as_slice$|as_ref$", c[1])]
+                    if len(ext) == 1 and not others and contains(ext[0][2][0], F(P(1), "0")):
+                        src = ext[0][2][1]
+                        body_ok = (mapped and src == P(2)) or (seq == P(1) and src == call("rln::utils::fr_to_bytes_le", P(2)))
+            if len(pre) == 1 and pre[0][3] == U64(fb, ("len", P(1))) and cit is not None and body_ok:
+                good = True
+            else:
+                why = "iterator form: buffer prefix %s, sequence %s, closure appends its element: %s" % ([sh(e[3], 60) for e in pre], sh(seq, 80), body_ok)
     ctx.check(good, "R10-1", "rln::utils::vec_fr_to_bytes_le[%s]" % cfg, "u64 LE count, then fr_to_bytes_le of every element in order",
               "vector writer deviates from [len<8> | el<32>...]: " + why, loc(it))
     # ---- reader of Vec<Fr>
@@ -561,6 +584,22 @@ JSON_SCALARS = {"identitySecret": "identity_secret", "userMessageLimit": "user_m
                 "x": "x", "externalNullifier": "external_nullifier"}
 
 
+def reduce_maps(fb, t, depth=0):
+    """`Ok(v).map(|b| g(b))` / `Some(v).map(..)` with a known single-path closure is `Ok(g(v))`; unwrap(Ok(v)) is v"""
+    if not isinstance(t, tuple) or not t or depth > 12:
+        return t
+    t = tuple(reduce_maps(fb, x, depth + 1) if isinstance(x, tuple) else x for x in t)
+    if t[0] == "call" and re.search(r"(Result::<T, E>|Option::<T>)::map$", t[1]) and len(t[2]) == 2:
+        src, cl = t[2]
+        if src[0] == "adt" and src[2] in ("Ok", "Some") and len(src[4]) == 1 and isinstance(cl, tuple) and cl and cl[0] == "closure":
+            cps = closure_paths(fb, cl, elem=src[4][0])
+            if cps and len(cps) == 1 and not cps[0][0]:
+                return (src[0], src[1], src[2], src[3], (reduce_maps(fb, cps[0][1], depth + 1),))
+    if t[0] == "unwrap" and isinstance(t[1], tuple) and t[1] and t[1][0] == "adt" and t[1][2] in ("Ok", "Some") and len(t[1][4]) == 1:
+        return t[1][4][0]
+    return t
+
+
 def bigint_json(ctx, fb, cfg):
     """R10-7: the decimal JSON witness (input of an external witness calculator): to_bigint(el) is the non-negative integer of the
     whole element, and each documented key carries the base-10 string of the same-named witness field (path vectors element-wise)"""
@@ -579,9 +618,9 @@ def bigint_json(ctx, fb, cfg):
     ctx.check(not why, "R10-7", "to_bigint[%s]" % cfg, "Ok(BigInt::from(BigUint::from(el)))", why, loc(tb))
     it = fb.need("rln::protocol::rln_witness_to_bigint_json")
     ctx.touch(it)
-    eng = Engine(fb, inline=inline_only(r"^rln::utils::to_bigint$"))
+    eng = Engine(fb, inline=opaque_rx(r"^rln::protocol::message_id_range_check$"))
     paths = [p for p in eng.run(it) if p.kind != "unreachable"]
-    oks = [p for p in paths if p.kind == "return" and any(re.search(r"Map::<.*>::insert$", c[1]) for c in p.calls())]
+    oks = [p for p, rv in ok_paths(eng, paths) if any(re.search(r"Map::<.*>::insert$", c[1]) for c in p.calls())]
     why = ""
     if len(oks) != 1:
         why = "expected one success path that builds the object, found %d" % len(oks)
@@ -596,7 +635,7 @@ def bigint_json(ctx, fb, cfg):
         for k, fld in sorted(JSON_SCALARS.items()):
             if why:
                 break
-            v = got[k]
+            v = reduce_maps(fb, got[k])
             strs = [t for t in subterms(v) if isinstance(t, tuple) and t and t[0] == "call" and t[1].endswith("BigInt::to_str_radix")]
             if not (len(strs) == 1 and cint(strs[0][2][1]) == 10 and is_unsigned_bigint_of(strs[0][2][0], F(P(1), fld))):
                 why = "key %s carries %s, specification the base-10 string of to_bigint(witness.%s)" % (k, sh(v, 120), fld)
@@ -608,7 +647,26 @@ def bigint_json(ctx, fb, cfg):
             good = [e for e in pushed if isinstance(e[3], tuple) and e[3][0] == "call" and e[3][1].endswith("BigInt::to_str_radix") and cint(e[3][2][1]) == 10
                     and contains(e[3][2][0], F(P(1), "path_elements"))
                     and is_unsigned_bigint_of(e[3][2][0], [t for t in subterms(e[3][2][0]) if isinstance(t, tuple) and t and t[0] == "unwrap"][0] if [t for t in subterms(e[3][2][0]) if isinstance(t, tuple) and t and t[0] == "unwrap"] else None)]
-            if not why and (not pushed or len(good) != len(pushed)):
+            mapped_ok = False
+            if not pushed:
+                # iterator form: path_elements.iter().map(f).collect(): f (a function or a closure) is the decimal string of its element
+                for t in subterms(got["pathElements"]):
+                    if isinstance(t, tuple) and t and t[0] == "call" and t[1].endswith("Iterator::map") and len(t[2]) == 2 and contains(t[2][0], F(P(1), "path_elements")):
+                        fterm = t[2][1]
+                        vals = []
+                        if fterm[0] == "fn" and fb.lookup(fterm[1]) is not None:
+                            e2 = Engine(fb)
+                            vals = [rv2 for _, rv2 in ok_paths(e2, e2.run(fb.lookup(fterm[1])))]
+                            elem = P(1)
+                        elif fterm[0] == "closure":
+                            vals = [v for _, v in (closure_paths(fb, fterm) or [])]
+                            elem = ELEM
+                        for v in vals:
+                            v = reduce_maps(fb, v)
+                            ss = [x for x in subterms(v) if isinstance(x, tuple) and x and x[0] == "call" and x[1].endswith("BigInt::to_str_radix")]
+                            if len(ss) == 1 and cint(ss[0][2][1]) == 10 and is_unsigned_bigint_of(ss[0][2][0], elem):
+                                mapped_ok = True
+            if not why and not mapped_ok and (not pushed or len(good) != len(pushed)):
                 why = "pathElements entries are %s, specification the base-10 string of to_bigint(element) for every element" % [sh(e[3], 80) for e in pushed][:2]
     ctx.check(not why, "R10-7", "rln_witness_to_bigint_json[%s]" % cfg, "seven documented keys, each the decimal string of the same-named witness field", why, loc(it))
 
